@@ -46,7 +46,15 @@ for p in sorted(glob.glob(f'/verif/variants/{pid}/*.patch')):
     jobs.append(('variant', os.path.basename(p)[:-6], p))
 for p in sorted(glob.glob(f'/verif/seeded/{pid}-[mnpqrst]*/patch.diff')):
     jobs.append(('seeded', os.path.basename(os.path.dirname(p)), p))
-for p in sorted(glob.glob('/verif/variants/benign/*.patch')) + sorted(glob.glob('/verif/variants/refactor/*.patch')):
+# the refactoring corpus (175 patches) is sampled in the registered thorough run to keep it within a few minutes;
+# SELFTEST_FULL=1 runs all of it (as tools/run_benign_all.py does)
+refactor = sorted(glob.glob('/verif/variants/refactor/*.patch'))
+refactor_sample = 'full'
+if not os.environ.get('SELFTEST_FULL'):
+    k = sum(ord(ch) for ch in pid) % 7
+    refactor = [p for i, p in enumerate(refactor) if i % 7 == k]
+    refactor_sample = 'every 7th patch (offset %d); SELFTEST_FULL=1 for all' % k
+for p in sorted(glob.glob('/verif/variants/benign/*.patch')) + refactor:
     jobs.append(('benign', os.path.basename(p)[:-6], p))
 # refactorings into idioms no rule recognises (documented in DESIGN.md section 8): reported separately
 known_undecided = {}
@@ -76,6 +84,7 @@ st = {
     'benign_false_alarms': [r[1] + ':' + r[3] for r in benign if r[2] == 'fired'],
     'benign_skipped': [r[1] for r in benign if r[2] in ('skipped', 'error', 'machinery')],
     'fired_rules': {r[1]: r[3] for r in breaking if r[2] == 'fired'},
+    'refactor_corpus': refactor_sample,
     'benign_documented_undecided': [r[1] + ':' + r[3] for r in documented],
 }
 print(f"SELFTEST {pid}: breaking {st['breaking_fired']}/{st['breaking_total']} reported (missed {st['breaking_missed']}, skipped {len(st['breaking_skipped'])}); benign {st['benign_silent']}/{st['benign_total']} silent (false alarms {st['benign_false_alarms']})")
